@@ -92,6 +92,7 @@ type actCall struct {
 	elapsed  int
 	started  time.Time
 	returned bool
+	answered bool // the terminal sent a response echoing this command's serial while the call was waiting (long time-out)
 }
 
 func runActScript(script string, srvArgs ...string) (string, *fw.OracleFailure) {
@@ -117,6 +118,8 @@ func runActScript(script string, srvArgs ...string) (string, *fw.OracleFailure) 
 	fail := func(sig, msg string) (string, *fw.OracleFailure) {
 		return "scenario-failed:" + sig, &fw.OracleFailure{Sig: sig, Msg: msg}
 	}
+	dedicated := map[string]bool{}
+	nDedicated := 0
 	collect := func(wait time.Duration) {
 		deadline := time.Now().Add(wait)
 		for {
@@ -136,7 +139,7 @@ func runActScript(script string, srvArgs ...string) (string, *fw.OracleFailure) 
 							c.result = "fail"
 						default:
 							c.result = fmt.Sprintf("resp/%d", sock.Int(e, "respSerial"))
-							if sock.Int(e, "respID") == 0x0001 {
+							if id := sock.Int(e, "respID"); id == 0x0001 || id == 0x0104 {
 								// the response body echoes the platform serial of the command it answers
 								b := fw.UnHex(orDash(sock.Str(e, "respBody")))
 								if len(b) >= 2 {
@@ -228,11 +231,16 @@ func runActScript(script string, srvArgs ...string) (string, *fw.OracleFailure) 
 			c := &actCall{tag: tag, short: short, deflt: to == 0, serial: -1, started: time.Now()}
 			calls[tag] = c
 			order = append(order, tag)
-			_ = srv.Command(fmt.Sprintf("send %s %s %d 00 %d", tag, key, 0x8103, to))
+			cmdID, cmdBody := 0x8103, "00"
+			if strings.HasSuffix(tok, "D") { // a parameter query: answered by the dedicated response 0x0104
+				cmdID, cmdBody = 0x8104, "-"
+				dedicated[tag] = true
+			}
+			_ = srv.Command(fmt.Sprintf("send %s %s %d %s %d", tag, key, cmdID, cmdBody, to))
 			// wait until the command reached the terminal (or the call returned already: offline key)
 			if cl != nil {
 				if fs := cl.ReadFrames(1, 400*time.Millisecond); len(fs) >= 1 {
-					if h, _, ok := frames.Parse(fs[0]); ok && h.ID == 0x8103 {
+					if h, _, ok := frames.Parse(fs[0]); ok && int(h.ID) == cmdID {
 						c.serial = int(h.Serial)
 					}
 				}
@@ -245,7 +253,27 @@ func runActScript(script string, srvArgs ...string) (string, *fw.OracleFailure) 
 				continue
 			}
 			body := []byte{byte(c.serial >> 8), byte(c.serial), 0x81, 0x03, 0}
-			_ = cl.Send(frames.Build(frames.H{ID: 0x0001, Phone: phone, Serial: termSerial}, body))
+			respID := uint16(0x0001)
+			if dedicated[tok[1:]] {
+				// 0x0104: echoed serial, count, parameter items — string parameters of length 0 (an APN that is not set) in the
+				// middle and in last position, DWORD / WORD / BYTE parameters, the k-th answer picks the k-th shape
+				shapes := [][]byte{
+					{1, 0, 0, 0, 0x10, 0},
+					{2, 0, 0, 0, 0x01, 4, 0, 0, 0, 60, 0, 0, 0, 0x10, 0},
+					{3, 0, 0, 0, 0x10, 0, 0, 0, 0, 0x13, 9, '1', '2', '7', '.', '0', '.', '0', '.', '1', 0, 0, 0, 0x11, 0},
+					{2, 0, 0, 0, 0x81, 2, 0, 11, 0, 0, 0, 0x84, 1, 2},
+					{0},
+					{1, 0, 0, 0, 0x83, 0},
+				}
+				body = append([]byte{byte(c.serial >> 8), byte(c.serial)}, shapes[nDedicated%len(shapes)]...)
+				nDedicated++
+				respID = 0x0104
+			}
+			collect(0)
+			if !c.returned && !c.short && !c.deflt {
+				c.answered = true
+			}
+			_ = cl.Send(frames.Build(frames.H{ID: respID, Phone: phone, Serial: termSerial}, body))
 			termSerial++
 			// every action is awaited: the call this response belongs to returns (a fixed pause let a disconnect that
 			// follows overtake the writer on a loaded machine, and then the caller rightly sees "closed")
@@ -253,6 +281,34 @@ func runActScript(script string, srvArgs ...string) (string, *fw.OracleFailure) 
 				collect(0)
 				if !c.returned {
 					time.Sleep(5 * time.Millisecond)
+				}
+			}
+			time.Sleep(10 * time.Millisecond)
+		case strings.HasPrefix(tok, "Q:"):
+			// the terminal answers several commands back to back: one write per response, a few milliseconds apart, none
+			// awaited before the next is sent (while the writer is busy, the reader takes the next response off the socket
+			// into the same read buffer before the previous one has been handled)
+			var cs []*actCall
+			for _, tg := range strings.Split(tok[2:], ":") {
+				c := calls[tg]
+				if c == nil || c.serial < 0 || cl == nil {
+					continue
+				}
+				collect(0)
+				if !c.returned && !c.short && !c.deflt {
+					c.answered = true
+				}
+				_ = cl.Send(frames.Build(frames.H{ID: 0x0001, Phone: phone, Serial: termSerial}, []byte{byte(c.serial >> 8), byte(c.serial), 0x81, 0x03, 0}))
+				termSerial++
+				cs = append(cs, c)
+				time.Sleep(4 * time.Millisecond)
+			}
+			for _, c := range cs {
+				for dl := time.Now().Add(2500 * time.Millisecond); !c.returned && time.Now().Before(dl); {
+					collect(0)
+					if !c.returned {
+						time.Sleep(5 * time.Millisecond)
+					}
 				}
 			}
 			time.Sleep(10 * time.Millisecond)
@@ -327,6 +383,9 @@ func runActScript(script string, srvArgs ...string) (string, *fw.OracleFailure) 
 				orc = &fw.OracleFailure{Sig: "active/foreign-response", Msg: fmt.Sprintf("call %s (platform serial %d) returned the response echoing serial %s", tag, c.serial, got)}
 			}
 			res = "resp"
+		}
+		if c.answered && c.returned && res != "resp" && orc == nil {
+			orc = &fw.OracleFailure{Sig: "active/response-lost", Msg: fmt.Sprintf("the terminal answered command %s (platform serial %d, a well-formed response echoing that serial) while the call was waiting with an 8 s time-out, yet the caller got %q", tag, c.serial, res)}
 		}
 		if c.returned && c.short && c.result == "timeout" && c.elapsed > 150+1500 && orc == nil {
 			orc = &fw.OracleFailure{Sig: "active/late-timeout", Msg: fmt.Sprintf("call %s with a 150 ms timeout returned after %d ms", tag, c.elapsed)}
@@ -493,6 +552,17 @@ func genC12(r *fw.Rng, tier string, emit func(fw.Case)) {
 	for _, s := range genActScripts(r, n, false) {
 		emit(fw.Case{Op: "act", Args: []string{s}})
 	}
+	// parameter queries (0x8104) answered by the dedicated response 0x0104 with parameter lists of several shapes
+	// (zero-length strings in the middle / in last position, no parameter at all), alone, mixed with general responses,
+	// answered in the other order, and after a stray dedicated response
+	for _, s := range []string{"J,CaD,Ra", "J,CaD,CbD,Ra,Rb", "J,CaD,CbL,Rb,Ra", "J,CaD,V,Ra,H", "J,CaD,Ra,CbD,Rb,CcD,Rc,CdD,Rd,CeD,Re,CfD,Rf",
+		"J,CaL,CbD,CcD,Rc,Ra,Rb"} {
+		emit(fw.Case{Op: "act", Args: []string{s}})
+	}
+	// responses arriving back to back while the writer is slow (own server instance with a slow write callback)
+	for _, s := range []string{"J,CaL,CbL,Q:a:b", "J,CaL,CbL,CcL,Q:c:a:b,H", "J,CaL,CbL,Q:b:a,CcL,CdL,Q:c:d"} {
+		emit(fw.Case{Op: "act", Args: []string{s}})
+	}
 	// bursts of more commands than the connection's queue holds (own server instance with a slow write callback)
 	for _, s := range []string{"J,B4", "J,B6,H", "J,B8", "J,CaL,B5,Ra"} {
 		emit(fw.Case{Op: "act", Args: []string{s}})
@@ -541,7 +611,7 @@ func execAct(c fw.Case) string {
 	var o *fw.OracleFailure
 	switch c.Op {
 	case "act":
-		if strings.Contains(c.Args[0], "B") || strings.Contains(c.Args[0], "b") {
+		if strings.Contains(c.Args[0], "B") || strings.Contains(c.Args[0], "b") || strings.Contains(c.Args[0], "Q:") {
 			// bursts: a slow write callback lets the connection's queue (capacity 3) fill up
 			res, o = runActScript(c.Args[0], "-slow-write-ms", "40")
 		} else {
